@@ -24,6 +24,7 @@ type OblResult struct {
 	Schedule []string          `json:"schedule,omitempty"`
 	Entries  []SchedEntry      `json:"schedule_entries,omitempty"`
 	Blocked  []BlockedRec      `json:"blocked,omitempty"`
+	Visible  []string          `json:"visible_positions,omitempty"`
 	SchedIdx []int             `json:"sched_idx,omitempty"`
 	Detail   string            `json:"detail,omitempty"`
 	Cross    string            `json:"cross,omitempty"`
@@ -469,6 +470,7 @@ func main() {
 				if si != nil {
 					or.Schedule = e.describeSchedule(si, r.Model)
 					or.Entries = e.scheduleEntries(si, r.Model)
+					or.Visible = visiblePositions(si)
 					if qq.kind == "stuck" {
 						or.Blocked = e.blockedUnder(si, r.Model)
 					}
